@@ -202,8 +202,13 @@ def run(prog: Program, rep: Report, tier: str):
     alt = eval_ref_method(prog, c, KEYS_REF_SHAPED, [KEY, SS, CONDS])
     # prod(()) == 1 already, so the max(1, .) only matters for a zero-sized request (outside the property)
     alt2 = eval_ref_method(prog, c, KEYS_REF.replace("max(1, prod(key_shape))", "prod(key_shape)"), [KEY, SS, CONDS])
+    # `shape[: -n or None]` spelled as a case split on n == 0
+    alt3 = eval_ref_method(prog, c, KEYS_REF.replace(
+        "        leading_cond_shape = condition.shape[: -self.cond_ndim or None]\n",
+        "        leading_cond_shape = condition.shape if self.cond_ndim == 0 else condition.shape[: -self.cond_ndim]\n"),
+        [KEY, SS, CONDS])
     compare(rep, "C06.keys", method_site(prog, c, "_get_sample_keys"), "AbstractDistribution._get_sample_keys", got, want, "keys",
-            alternatives=(alt, alt2))
+            alternatives=(alt, alt2, alt3))
     got = Interp(prog).eval_method(c, "cond_ndim", [])
     want = eval_ref_method(prog, c, "def cond_ndim(self):\n    return None if self.cond_shape is None else len(self.cond_shape)\n", [])
     compare(rep, "C06.keys", method_site(prog, c, "cond_ndim"), "AbstractDistribution.cond_ndim", got, want, "cond_ndim")
